@@ -82,7 +82,9 @@ extern long fiber_verif_runqueue_total(void);
 #define FV_WAKE_SPIN 33           // fifo, - (waker found announced waiter not enqueued)
 #define FV_SET_AND_WAIT 34        // location, fiber
 #define FV_SCHED_SWAP 35          // scheduler, - (run queues swapped)
-#define FV_POINT_MAX 36
+#define FV_HP_PUBLISH_PRE 36       // record, node (pointer read, not yet published)
+#define FV_HP_RELEASED 37          // record, (intptr_t) slot (protection just dropped)
+#define FV_POINT_MAX 38
 
 #define FV_MAINT_DONE_FIBER 1
 #define FV_MAINT_TO_SCHEDULE 2
